@@ -56,7 +56,7 @@ CHECKS = {
                     "accessors are additionally proved by Verus on the extracted text (fast first stage).",
     ),
     "C03": dict(
-        verus=[dict(unit="framing")],
+        verus=[dict(unit="framing"), dict(unit="drd_decode")],
         kani=[dict(crate="nexrad-decode", files=["drd.rs", "w03.rs"], role="witness", tag="-witness", harnesses=[
             dict(name="w03_two_frames", bounded="2 frames, symbolic type codes", what="two whole frames -> two messages in order, opaque placeholders for types without decoder, reader at the end"),
             dict(name="w03_truncation", bounded="1 frame, cuts at 0/1/2403 body bytes; tails of 1/27 bytes", what="cut inside a body is an error; trailing fragment < header ignored"),
@@ -199,6 +199,7 @@ CHECKS = {
                     "messages, elevations or radials.",
     ),
     "C02": dict(
+        verus=[dict(unit="drd_decode")],
         kani=[dict(crate="nexrad-decode", files=["wire_layout.rs", "drd.rs", "c02.rs"], harnesses=
             layout_h(["DrdHeader", "DataBlockId", "VolumeDataBlock", "ElevationDataBlock", "RadialDataBlock", "GenericDataBlockHeader"]) + [
             dict(name="c02_generic_block_new_len", what="GenericDataBlock::new: gate buffer length == gates x (word_size/8) for all u16 x u8"),
@@ -246,7 +247,7 @@ CHECKS = {
                     "scale and offset but bounded in gate count.",
     ),
     "C04": dict(
-        verus=[dict(unit="framing"), dict(unit="vcp_decode"), dict(unit="cfm_decode")],
+        verus=[dict(unit="framing"), dict(unit="drd_decode"), dict(unit="vcp_decode"), dict(unit="cfm_decode")],
         kani=[dict(crate="nexrad-decode", files=["wire_layout.rs", "drd.rs", "c08.rs"], harnesses=
             prefix_h([n for n in DECODE_STRUCTS if n not in ("RdaStatus", "VolumeDataBlock", "VcpElevation")]) +
             prefix_h(["RdaStatus", "VolumeDataBlock", "VcpElevation"], tier="thorough") + [
